@@ -20,7 +20,16 @@ creation ticket; an entry is `{parent, elem}` and the purge decision reads `elem
     its parent object: the key whose winner has the entry's creation ticket is unlinked (Go looks
     the RHT node up BY CREATION TICKET, so a live element restored under the same identity is the
     one that gets unlinked), the heap entries of the identity and of everything below it are
-    erased, their registry entries dropped.
+    erased, their registry entries dropped. The repaired tree (hooks/fix-c14-reconcile-parent.patch)
+    adds an instance check to `Root.deregisterElement`: a registration is only dropped when it
+    belongs to the element being collected. In the redo + GC history the peer's purge therefore
+    still UNLINKS the live restored node from its parent object (visible result unchanged) but no
+    longer erases its element-map entry. The model holds one heap entry per identity and follows
+    this by the flag: when the heap entry under the collected identity is LIVE it is another
+    instance (a restored copy) and is kept, otherwise it is erased with everything below it. The
+    same check on `gcElementPairMap` inside `DeregisterElement` (the `undoRedo` gate) is not
+    followed: `dereg` drops the entries by identity; inside the fragment the registered pair of a
+    re-used identity is the instance the element map holds whenever the gate fires on it.
 
 Scope (named gaps, everything else passes through `uexecute` with the registry unchanged):
   * object parents, values that are leaves (primitives, counters, empty containers). For a
@@ -129,7 +138,7 @@ def gexecute (s : GDoc) (tw : Ticket → Bool) (src : Source) (op : UOp) : Excep
 def grunOps (src : Source) : Run × Reg → List UOp → Run × Reg
   | rg, [] => rg
   | (r, g), op :: rest =>
-    match uexecute r.doc r.tw src op with
+    match uexecute r.doc (twOf fixReconcileParent r.tw) src op with
     | .ok (d', rev) =>
       grunOps src ({ r with doc := d', tw := addTwins r.tw (twinIds op),
                             revs := r.revs ++ rev.toList, executed := r.executed ++ [op] },
@@ -153,8 +162,10 @@ def unlink (d : Doc) (parent id : Ticket) : Doc :=
     | _ => d
   | none => d
 
-/-- `deregisterElement`: `elementMap` loses the identity and everything below it -/
-def erase (d : Doc) (id : Ticket) : Doc := fun t => if under d id gcFuel t then none else d t
+/-- `deregisterElement`: `elementMap` loses the identity and everything below it - unless the
+    entry under that identity is another (live, restored) instance (the repaired instance check) -/
+def erase (d : Doc) (id : Ticket) : Doc :=
+  if isLive d id then d else fun t => if under d id gcFuel t then none else d t
 
 def purgeOne (s : GDoc) (e : GcEntry) : GDoc :=
   if s.gc.contains e then
